@@ -29,11 +29,12 @@ func Run(c *corr.Ctx) {
 	corpus(c)
 
 	// (a) Decode
-	for i, n := 0, c.N(12000, 400000); i < n; i++ {
+	for i, n := 0, c.N(12000, 300000); i < n; i++ {
 		decRun(c, genDecHistory(c), fmt.Sprintf("dec-%d", i))
 	}
 	decBoundary(c)
 	decLateSweep(c)
+	decEnum(c)
 
 	// (b) NTP
 	per := 100
@@ -57,7 +58,7 @@ func Run(c *corr.Ctx) {
 	}
 
 	// (c) sender report → PacketNTP
-	for i, n := 0, c.N(10000, 300000); i < n; i++ {
+	for i, n := 0, c.N(10000, 250000); i < n; i++ {
 		srRun(c, genSRHistory(c), fmt.Sprintf("sr-%d", i))
 	}
 	srBoundary(c)
